@@ -76,7 +76,7 @@ func c04Check(in []byte) (nontrivial bool, class string, err error) {
 	// on the literals ref.RiskyNumber describes; there (and on a quarter of the literals
 	// of at most 64 bytes and a sixteenth of those of at most 4 KiB, as a standing cross-check
 	// of strconv) exact rational arithmetic decides.
-	if h := core.Hash(tok); ref.RiskyNumber(tok) || len(tok) <= 64 && h%4 == 0 || len(tok) <= 4096 && h%16 == 1 {
+	if h := core.Hash(tok); ref.RiskyNumber(tok) || len(tok) <= 64 && h%4 == 0 || len(tok) <= 4096 && h%16 == 1 || len(tok) <= 200000 && h%64 == 2 {
 		ef, eovf := ref.ExactFloat(tok)
 		if eovf != wantErr || !eovf && math.Float64bits(ef) != math.Float64bits(want) {
 			oracle = "exact rational rounding (strconv.ParseFloat differs)"
